@@ -31,11 +31,15 @@ pub fn stir(pool: u64) -> u64 {
     pool ^ mixer
 }
 
-#[derive(Clone, Debug, PartialEq, Eq)]
+#[derive(Clone, Debug)]
 pub struct Model {
     pub pool: u64,
     pub rounds: u8,
     pub half_pending: bool,
+    /// instrumentation (not part of the compared state): stuck measurements seen so far
+    /// (priming measurements included) and completed collections
+    pub stuck_events: u64,
+    pub collections: u64,
 }
 
 /// Stuck-test state of one collection.
@@ -91,7 +95,7 @@ pub enum TimerVerdict {
 
 impl Model {
     pub fn new() -> Model {
-        Model { pool: 0, rounds: 64, half_pending: false }
+        Model { pool: 0, rounds: 64, half_pending: false, stuck_events: 0, collections: 0 }
     }
 
     /// One measurement: [loop-count reading][probe reading][loop-count reading]; returns accepted?
@@ -103,6 +107,7 @@ impl Model {
         let _lc2 = rd.next()?; // lfsr loop count
         self.pool = lfsr(self.pool, delta as i64 as u64); // sign-extended 32-bit delta
         if ec.stuck(delta) {
+            self.stuck_events += 1;
             return Ok(false);
         }
         self.pool = self.pool.rotate_left(7);
@@ -117,6 +122,7 @@ impl Model {
             while !self.measure(&mut ec, rd)? {}
         }
         self.pool = stir(self.pool);
+        self.collections += 1;
         Ok(self.pool)
     }
 
@@ -172,7 +178,7 @@ impl Model {
     }
 
     pub fn clone_model(&self) -> Model {
-        Model { pool: self.pool, rounds: self.rounds, half_pending: false }
+        Model { pool: self.pool, rounds: self.rounds, half_pending: false, stuck_events: self.stuck_events, collections: self.collections }
     }
 
     /// test_timer as documented (after the two fixes recorded in known_findings.json):
